@@ -134,7 +134,7 @@ class ObjGen(lg.Gen):
             c["meths"].append(("dump" + name, [], "void", [("echo", ("bin", "+", ("s", f[3] + "="), ("fld", ("this",), f[3])))
                                                             for f in self.all_fields(name)], False, ""))
             if self.with_dtors and r.random() < 0.6:
-                c["dtor"] = [("echo", ("s", "~" + name))]
+                c["dtor"] = [("echo", ("s", "~" + name)), ("echo", ("s", "~" + name + " done"))]
 
     def gen_methods(self, c):
         r = self.r
@@ -307,6 +307,14 @@ class ObjGen(lg.Gen):
             cands = [n for n, c in objs.items() if self.is_sub(c["static"], pc)]
             for n in cands[:2]:
                 body.append(("expr", ("call", "use", [("v", n)])))
+        # an object that dies while its function unwinds from a return
+        if r.random() < 0.6:
+            dyn = r.choice(self.classes)["name"]
+            helpers.append(("scratch", "int", [("int", "v")],
+                            [("decl", False, ("cls", dyn), "tmp", self.new_expr(dyn, {"v": ("int", False, False)}, {})),
+                             ("if", ("bin", ">", ("v", "v"), ("i", 1)), ("block", [("ret", ("bin", "*", ("v", "v"), ("i", 2)))]), None),
+                             ("ret", ("bin", "+", ("v", "v"), ("i", 1)))]))
+            body.append(("echo", ("call", "scratch", [("i", r.choice([0, 1, 2, 3]))])))
         # upcast assignment and calls through it
         pairs = [(a, b) for a in objs for b in objs if a != b and self.is_sub(objs[b]["static"], objs[a]["static"])]
         if pairs and r.random() < 0.6:
